@@ -272,6 +272,18 @@ theorem C20_page_files_distinct (a b : CType) (ha : a.comps ≠ []) (hb : b.comp
     ∀ ns, typePagePath a ≠ nsPagePath ns :=
   ⟨typePagePath_inj ha hb, typePagePath_ne_nsPagePath a⟩
 
+
+/-- **The bytes of a page are a function of the run's input only.**  `_generate_code` opens each output file with
+`open(path, "w")`, i.e. replaces whatever is there (`writeFile`); the files of a run have pairwise different paths
+(`C20_page_files_distinct`).  Then, whatever the output directory held before — the longer pages of an earlier state of the
+definitions, pages of types that no longer exist — every file of the run reads back exactly the content rendered for it: a
+regenerated page is well formed, escaped and linked iff the freshly generated one is.  (The tie generates an earlier, longer
+and an earlier, shorter state into the same output directory first and compares every file with a fresh run, byte for byte.) -/
+theorem C20_page_content_independent_of_previous_output {α : Type} (files : List (List Str × α)) (before₁ before₂ : OutDir α)
+    (hpaths : (files.map (·.1)).Nodup) : ∀ f ∈ files,
+    readFile (writeAll before₁ files) f.1 = some f.2 ∧ readFile (writeAll before₂ files) f.1 = some f.2 :=
+  fun f hf => ⟨readFile_writeAll files before₁ hpaths f hf, readFile_writeAll files before₂ hpaths f hf⟩
+
 /-- Which links a page has: the relative links of the page of namespace `tr` are exactly `"../" * depth` + `url_from_type`
 of the types `linkedNs tr` lists (nested entries with `short_name != "_"`). -/
 theorem C20_relative_links_are_type_links (tr : NsD) : ∀ it ∈ nsPageItems tr, ∀ h, it.relLink = some h →
@@ -452,6 +464,14 @@ example : [collisionRun, simpleExampleRun].all runOkB = true ∧ closedB [collis
 
 /-- each collision witness violates the condition -/
 example : simpleRun collisionRun = false ∧ simpleRun (.node ["search".toList] [] []) = false := by decide
+
+
+/-- what an opener that does not truncate would leave behind when the new page is shorter: the new page followed by the tail
+of the old one (a second `</html>`): not the rendered content -/
+example : overwriteInPlace "<html><pre>long old text</pre></html>".toList "<html><pre>new</pre></html>".toList =
+    "<html><pre>new</pre></html>re></html>".toList ∧
+    readFile (writeFile [(["ns".toList, indexPage], "<html><pre>long old text</pre></html>".toList)] ["ns".toList, indexPage]
+      "<html><pre>new</pre></html>".toList) ["ns".toList, indexPage] = some "<html><pre>new</pre></html>".toList := by decide
 
 /-- a root namespace named like a constant id of the page -/
 example : (idsOf (nsPageItems (.node ["search".toList] [] []))).count "search".toList = 2 := by decide
